@@ -240,6 +240,9 @@ def aggregate(inp):
         # counting the values of a field counts None cells as well
         out = _run('aggregate-len-value', lambda: etl.aggregate(src, key, len, 'j', **kw), strat, n)
         _grouped('aggregate-len-value', out, kf + ('value',), [k + (len(g),) for k, g in G], nk, strat, _ik(key))
+        # value selected by INDEX 0: a falsy but valid selection (the first column), not "no value"
+        out = _run('aggregate-value-index0', lambda: etl.aggregate(src, key, list, 0, **kw), strat, n)
+        _grouped('aggregate-value-index0', out, kf + ('value',), [k + ([r[0] for r in g],) for k, g in G], nk, strat, _ik(key))
         out = _run('aggregate-rows', lambda: etl.aggregate(src, key, list, **kw), strat, n)
         _grouped('aggregate-rows', out, kf + ('value',), [k + (list(g),) for k, g in G], nk, strat, _ik(key))
         out = _run('aggregate-fields', lambda: etl.aggregate(src, key=key, aggregation=list, value=('i', 'w'), **kw),
@@ -396,6 +399,9 @@ def rowreduce(inp):
         return (a if isinstance(a, tuple) else (a,)) + (b,)
     out = _run('fold', lambda: etl.fold(src, key, f, 'i', **kw), strat, n)
     _grouped('fold', out, ('key', 'value'), [(kout(k), functools.reduce(f, [r[ii] for r in g])) for k, g in G], 1,
+             strat)
+    out = _run('fold-index0', lambda: etl.fold(src, key, f, 0, **kw), strat, n)
+    _grouped('fold-index0', out, ('key', 'value'), [(kout(k), functools.reduce(f, [r[0] for r in g])) for k, g in G], 1,
              strat)
     out = _run('fold-add', lambda: etl.fold(src, key, operator.add, value='w', **kw), strat, n)
     _exp(all(len(r) == 2 for r in out[1]), 'fold-add', 'row-shape', strat, 2, out[1])
